@@ -85,20 +85,26 @@ def main(tier):
                     os.makedirs(sub, exist_ok=True)
                     with open(os.path.join(sub, name), 'w') as f:
                         f.write(text)
+                # a decodable document whose content the analysis rejects (a Service whose selector holds an illegal label value)
+                dfatal = h.dir_for('f%d' % cid)
+                gen.write_dir(dfatal, clean + [{'apiVersion': 'v1', 'kind': 'Service', 'metadata': {'name': 'svcbad', 'namespace': W['workloads'][0]['ns']},
+                                                'spec': {'selector': {'app': 'not a legal value!'}, 'ports': [{'port': 80}]}}])
                 cmds += [{'id': 'c', 'cmd': 'list', 'dir': dclean}, {'id': 'j', 'cmd': 'list', 'dir': djunk}, {'id': 'js', 'cmd': 'list', 'dir': djunk, 'stop': True},
                          {'id': 'd', 'cmd': 'diff', 'dir': djunk, 'dir2': dclean}, {'id': 'ds', 'cmd': 'diff', 'dir': djunk, 'dir2': dclean, 'stop': True},
-                         {'id': 'cs', 'cmd': 'list', 'dir': dclean, 'stop': True}]
+                         {'id': 'cs', 'cmd': 'list', 'dir': dclean, 'stop': True},
+                         {'id': 'd2', 'cmd': 'diff', 'dir': dclean, 'dir2': djunk}, {'id': 'd2s', 'cmd': 'diff', 'dir': dclean, 'dir2': djunk, 'stop': True},
+                         {'id': 'f', 'cmd': 'list', 'dir': dfatal}]
                 metas.append((cid, W, other, bad, broken, ignored))
             outs = h.run(cmds)
             for j, (cid, W, other, bad, broken, ignored) in enumerate(metas):
-                oc, oj, ojs, od, ods, ocs = outs[6 * j: 6 * j + 6]
+                oc, oj, ojs, od, ods, ocs, od2, od2s, of = outs[9 * j: 9 * j + 9]
                 run.count(1)
                 nmal = len(bad) + len(broken)
                 run.dist('malformed:%d' % nmal)
                 run.dist('other-kind:%d' % len(other))
                 payload = {'kind': 'junk', 'world': W, 'other_kind': other, 'schema_bad': bad, 'broken_files': broken, 'ignored_files': ignored,
                            'how': 'the clean manifests of `world` vs the same plus the listed junk documents/files; k8snetpolicy list [--fail] / diff'}
-                if any(o['outcome'] == 'panic' for o in (oj, ojs, od, ods)):
+                if any(o['outcome'] == 'panic' for o in (oj, ojs, od, ods, od2, od2s, of)):
                     run.report(None, 'panic-%d' % cid, payload, 'panic on junk input')
                     continue
                 if oc['outcome'] != 'ok':
@@ -126,6 +132,12 @@ def main(tier):
                 if nmal and ojs['outcome'] == 'ok' and ojs['conns']:
                     run.report(None, 'partial-%d' % cid, dict(payload, with_stop=ojs['conns'], errors=ojs['errors']), 'stop-on-error with a severe error still returns connections')
                     continue
+                # 3b. stop-on-first-error without any severe error changes nothing
+                if not any(e['sev'] in ('severe', 'fatal') for e in oc['errors']):
+                    if ocs['outcome'] != 'ok' or conns_key(ocs) != conns_key(oc) or any(e['sev'] in ('severe', 'fatal') for e in ocs['errors']):
+                        run.report(None, 'stopclean-%d' % cid, dict(payload, clean=oc['conns'], clean_with_stop=ocs.get('conns'), errors=ocs['errors']),
+                                   'stop-on-error on an input without any severe error does not give the report of the same input without the option')
+                        continue
                 # 4. diff(junk, clean) has no change; with stop and a severe error: no diff entries
                 if od['outcome'] == 'ok' and not od.get('diff_nil') and any(od['diff'].get(t) for t in ('added', 'removed', 'changed')):
                     run.report(None, 'diffskew-%d' % cid, dict(payload, diff=od['diff']), 'diff between the input with junk and the clean input is not empty')
@@ -136,6 +148,26 @@ def main(tier):
                 if nmal and ods['outcome'] == 'ok' and not ods.get('diff_nil') and any(ods['diff'].get(t) for t in ('added', 'removed', 'changed', 'unchanged')):
                     run.report(None, 'diffpartial-%d' % cid, dict(payload, diff=ods['diff']), 'diff with stop-on-error and a severe error still returns entries')
                     continue
+                # 5. the same with the junk on the second side of the diff
+                if od2['outcome'] == 'ok' and not od2.get('diff_nil') and any(od2['diff'].get(t) for t in ('added', 'removed', 'changed')):
+                    run.report(None, 'diffskew2-%d' % cid, dict(payload, diff=od2['diff']), 'diff between the clean input and the input with junk is not empty')
+                    continue
+                if od2['outcome'] != 'ok':
+                    run.report(None, 'difffail2-%d' % cid, dict(payload, error=od2.get('err')), 'diff fails although only irrelevant / malformed documents were added to the second directory')
+                    continue
+                if len([e for e in od2['errors'] if e['sev'] == 'severe']) < nmal:
+                    run.report(None, 'diffunreported2-%d' % cid, dict(payload, errors=od2['errors'], expected_severe=nmal),
+                               'a malformed document or unreadable file of the second directory does not appear in the diff analyzer\'s Errors() with severity severe')
+                    continue
+                if nmal and od2s['outcome'] == 'ok' and not od2s.get('diff_nil') and any(od2s['diff'].get(t) for t in ('added', 'removed', 'changed', 'unchanged')):
+                    run.report(None, 'diffpartial2-%d' % cid, dict(payload, diff=od2s['diff']), 'diff with stop-on-error and a severe error in the second directory still returns entries')
+                    continue
+                # 6. a fatal entry in Errors() never comes with connections
+                for o_, nm in ((oj, 'junk'), (of, 'rejected-service')):
+                    if o_['outcome'] == 'ok' and o_.get('conns') and any(e['sev'] == 'fatal' for e in o_['errors']):
+                        run.report(None, 'fatalconns-%d' % cid, dict(payload, which=nm, errors=o_['errors'], conns=o_['conns'][:5]),
+                                   'Errors() holds a fatal error but connections were returned without an error')
+                        break
             run.cov['traces_validated_against_impl'] += len(metas)
             if k == 0 and metas:
                 run.sample({'other_kind': [d['kind'] for d in metas[0][2]], 'schema_bad': [d['kind'] for d in metas[0][3]], 'broken_files': [x[0] for x in metas[0][4]]})
